@@ -74,6 +74,18 @@ class Case:
         self.name, self.op, self.user, self.had, self.admin, self.aux, self.pw = name, op, user, had, target_admin, aux, pw
         self.empty_dir = empty_dir
 
+    def clone(self):
+        c = Case(self.name, self.op, self.user, self.had, self.admin, self.aux, self.pw, self.empty_dir)
+        c.tmp_is_file = getattr(self, "tmp_is_file", False)
+        c.tmp_xdev = getattr(self, "tmp_xdev", False)
+        c.warm = getattr(self, "warm", False)
+        return c
+
+    def cleanup(self):
+        shutil.rmtree(self.root, ignore_errors=True)
+        if getattr(self, "xdev", None):
+            shutil.rmtree(self.xdev, ignore_errors=True)
+
     def ctx(self):
         return {"op": self.op if self.op != "init" else "add", "hadOld": self.had is not None, "hasAux": len(self.aux) > 0}
 
@@ -94,7 +106,23 @@ class Case:
                 f.write(scrypt_record(b"bob-pw").encode())
         if getattr(self, "tmp_is_file", False):          # a decoy regular file where the work area should be
             open(os.path.join(base, ".tmp"), "wb").write(b"not a directory\n")
+        self.xdev = None
+        if getattr(self, "tmp_xdev", False):             # the work area lives on another file system (rename fails with EXDEV)
+            xd = "/var/tmp/verif-xdev-%d-%s" % (os.getpid(), re.sub(r"[^A-Za-z0-9]", "_", os.path.basename(root)))
+            shutil.rmtree(xd, ignore_errors=True)
+            os.makedirs(xd, mode=0o700)
+            if os.stat(xd).st_dev != os.stat(base).st_dev:
+                os.symlink(xd, os.path.join(base, ".tmp"))
+                self.xdev = xd
+            else:
+                shutil.rmtree(xd, ignore_errors=True)
         open(os.path.join(root, "store.yaml"), "w").write(CFG % (base, base64.b64encode(HMAC1).decode()))
+        if getattr(self, "warm", False):                 # the process has used another store directory before this operation
+            wb = os.path.join(root, "warm", "base")
+            os.makedirs(wb, mode=0o700)
+            with open(os.path.join(wb, "boss.admin"), "wb") as f:
+                f.write(scrypt_record(b"boss-pw").encode())
+            open(os.path.join(root, "warm.yaml"), "w").write(CFG % (wb, base64.b64encode(HMAC1).decode()))
         open(os.path.join(root, "pw"), "wb").write(PWS[self.pw])
         open(os.path.join(root, "decoy.user"), "wb").write(scrypt_record(b"decoy").encode())
         self.root, self.base = root, base
@@ -111,6 +139,8 @@ class Case:
              "-pwfile", os.path.join(self.root, "pw")]
         if self.admin:
             a.append("-admin")
+        if getattr(self, "warm", False):
+            a += ["-warm", os.path.join(self.root, "warm.yaml")]
         return a
 
     def role(self, path):
@@ -119,9 +149,9 @@ class Case:
             return "F"
         if path == self.G:
             return "G"
-        if path.startswith(self.base + "/.tmp/"):
+        if path.startswith(self.base + "/.tmp/") or (getattr(self, "xdev", None) and path.startswith(self.xdev + "/")):
             return "T"
-        if path == self.base + "/.tmp":
+        if path == self.base + "/.tmp" or (getattr(self, "xdev", None) and path == self.xdev):
             return "TD"
         if path == self.base:
             return "B"
@@ -379,6 +409,13 @@ def standard_cases(thorough=False):
         Case("remove-missing", "remove"),
         Case("init-empty", "init", empty_dir=True, target_admin=True),
     ]
+    for c in (Case("update-tmp-otherfs", "update", had="admin", aux=b"totp: QUJD\n"), Case("add-tmp-otherfs", "add")):
+        c.tmp_xdev = True
+        cs.append(c)
+    for c in (Case("add-after-other-store", "add"), Case("update-after-other-store", "update", had="user", aux=b"x: y\n"),
+              Case("setadmin-after-other-store", "setadmin", had="user", target_admin=True), Case("remove-after-other-store", "remove", had="admin")):
+        c.warm = True
+        cs.append(c)
     if thorough:
         for n, aux in (("4095", b"x" * 4095), ("4096", b"y" * 4096), ("4097", b"z" * 4097), ("nonl", b"totp: no-newline"),
                        ("crlf", b"a: b\r\nc: d\r\n"), ("bin", bytes(range(256)) * 3), ("1m", b"m" * (1 << 20))):
@@ -466,6 +503,8 @@ def baselines(ctx, drv, cases):
         lines = [dict(ev="reset", **c.ctx())] + evs + [{"ev": "ret", "r": "ok" if ok else "fail"}]
         out.append({"case": c, "run": r, "events": evs, "lines": lines, "ok": ok,
                     "final_view": view_of(c, drv.pi(c.base), c.old)})
+        if getattr(c, "xdev", None):
+            shutil.rmtree(c.xdev, ignore_errors=True)
     return out
 
 
@@ -485,7 +524,7 @@ def kill_runs(ctx, drv, bl, workers=16):
     def one(job):
         b, k, idx = job
         c0 = b["case"]
-        c = Case(c0.name, c0.op, c0.user, c0.had, c0.admin, c0.aux, c0.pw, c0.empty_dir)
+        c = c0.clone()
         call = b["run"]["parsed"]["region"][idx]
         inj = "%s:error=EINTR:signal=SIGKILL:when=%d" % (call["name"], call["ordinal"])
         for attempt in range(3):       # an injection that did not fire is retried, never judged
@@ -518,7 +557,7 @@ def kill_runs(ctx, drv, bl, workers=16):
         except Exception:
             rec["check"] = "crash"
         others = {e["name"]: e["sha"] for e in drv.pi(c.base) if e["name"] in ("boss.admin", "bob.user")}
-        shutil.rmtree(c.root, ignore_errors=True)
+        c.cleanup()
         lines = [dict(ev="reset", **c.ctx())] + evs + [{"ev": "killview", "F": view["F"], "G": view["G"]}]
         return ("ok", c, k, {"lines": lines, "view": view, "recovery": rec, "others": others, "call": call["name"]})
 
@@ -565,7 +604,7 @@ def reader_runs(ctx, drv, bl, workers=8):
     def one(job):
         b, k, idx = job
         c0 = b["case"]
-        c = Case(c0.name, c0.op, c0.user, c0.had, c0.admin, c0.aux, c0.pw, c0.empty_dir)
+        c = c0.clone()
         call = b["run"]["parsed"]["region"][idx]
         c.materialise(os.path.join(drv.work, "reader-%s-%d" % (c.name, k)))
         tr = os.path.join(c.root, "strace.txt")
@@ -587,7 +626,7 @@ def reader_runs(ctx, drv, bl, workers=8):
                 rec[tag] = "crash rc=%d" % a.returncode
         v2 = view_of(c, drv.pi(c.base), c.old)
         w.wait(timeout=30)
-        shutil.rmtree(c.root, ignore_errors=True)
+        c.cleanup()
         return c, k, call["name"], v1, v2, rec
 
     with concurrent.futures.ThreadPoolExecutor(max_workers=workers) as ex:
@@ -620,6 +659,9 @@ def fault_runs(ctx, drv, bl, errnos=ERRNOS, workers=16, only_calls=None, as_prop
     """Fail each system call of each operation once. Returns (runs, requested, per_case trace lines)."""
     jobs = []
     for b in bl:
+        if getattr(b["case"], "tmp_xdev", False) or getattr(b["case"], "warm", False):
+            continue        # xdev: the operation already fails by construction (EXDEV), a second, injected fault is outside "an I/O
+                            # error"; warm: the same call sequence as the plain case, the faults are injected there
         reg = b["run"]["parsed"]["region"]
         commit = next((i for i, r in enumerate(reg) if r["name"] in ("renameat", "renameat2", "rename", "unlinkat", "unlink")
                        and r["ret"] == 0 and b["case"].role(r["strs"][-1 if r["name"].startswith("rename") else 0]) in ("F", "G")), None)
@@ -632,8 +674,7 @@ def fault_runs(ctx, drv, bl, errnos=ERRNOS, workers=16, only_calls=None, as_prop
     def one(job):
         b, idx, en, commit = job
         c0 = b["case"]
-        c = Case(c0.name, c0.op, c0.user, c0.had, c0.admin, c0.aux, c0.pw, c0.empty_dir)
-        c.tmp_is_file = getattr(c0, "tmp_is_file", False)
+        c = c0.clone()
         call = b["run"]["parsed"]["region"][idx]
         tag = "fault-%s-%d-%s" % (c.name, idx, en)
         c.materialise(os.path.join(drv.work, tag))
@@ -655,7 +696,7 @@ def fault_runs(ctx, drv, bl, errnos=ERRNOS, workers=16, only_calls=None, as_prop
                 ok = r["res"]["ok"] or c.op == "remove"
                 lines = [dict(ev="reset", **c.ctx())] + evs + [{"ev": "ret", "r": "ok" if ok else "fail"}]
                 out = ("ok", c, idx, en, call, {"res": r["res"], "diff": diff, "view": view, "lines": lines}, commit)
-        shutil.rmtree(c.root, ignore_errors=True)
+        c.cleanup()
         return out
 
     with concurrent.futures.ThreadPoolExecutor(max_workers=workers) as ex:
